@@ -32,7 +32,38 @@ ASSUMPTIONS = ['panic-freedom of the IMPLEMENTATION is not a theorem about the (
                'float column types (FLOAT4/FLOAT8) are not driven (C18)']
 
 
+import collections
+ERR_KINDS = collections.Counter()   # error kinds / outcome classes hit by the IMPLEMENTATION in this run (evidence)
+
+
+def _tally(c, i):
+    t = c.split(' ')
+    if t[0] == 'exh':
+        for kv in i.split(' ')[1:]:
+            k, _, n = kv.partition('=')
+            if n.isdigit():
+                ERR_KINDS['exh:' + t[2] + ':' + k] += int(n)
+        return
+    op = t[0]
+    if op.startswith('d_') and i.startswith('err'):
+        ERR_KINDS[op + ':' + i] += 1
+    elif (op.startswith('d_') and i.startswith('ok')) or i == 'panic':
+        ERR_KINDS[op + ':' + i.split(' ')[0]] += 1
+    else:
+        for tok in i.split(' '):
+            if tok.startswith('err') or tok in ('PANIC', 'panic', 'PRIM-MISMATCH', 'DIFF', 'BITS-DIFF'):
+                ERR_KINDS[op + ':' + tok] += 1
+
+
+def extra_checks(tier, rng, findings):
+    """no extra checks; reports the tally of implementation outcome kinds collected during the run"""
+    kinds = dict(sorted(ERR_KINDS.items()))
+    distinct = sorted(set(k.split(':', 1)[1] for k in kinds if not k.startswith('exh:')))
+    return {'violations': [], 'known': {}, 'coverage': {'impl_outcome_kinds': kinds, 'distinct_error_kinds': distinct}}
+
+
 def nontrivial(c, i):
+    _tally(c, i)
     t = c.split(' ')
     return len(t) > 2 and t[-1] != '-'
 
@@ -98,6 +129,47 @@ def mutants_for(rng, dec, bits):
     return []
 
 
+def threshold_cases(bits):
+    """inputs sitting exactly on each comparison of the decoders (value = threshold, threshold +- 1)"""
+    out = []
+    n = nbytes(bits)
+    # SCALE compact: mode 1 / 2 lower bounds (63, 2^14-1 accepted by ruint), special arms n = 4, 8, 16, generic arm threshold
+    for x in (0, 1, 62, 63, 64, 16383, 16384):
+        out.append(('scalec', le((x << 2) | 1, 2) if x < 1 << 14 else None))
+    for x in (0, 63, 64, 16382, 16383, 16384, (1 << 30) - 1):
+        out.append(('scalec', le((x << 2) | 2, 4)))
+    for k, thr in ((4, (1 << 30) - 1), (8, (1 << 56) - 1), (16, (1 << 120) - 1)):
+        for x in (thr - 1, thr, thr + 1, (1 << (8 * k)) - 1, 0):
+            out.append(('scalec', bytes([3 + ((k - 4) << 2)]) + le(x, k)))
+    for k in sorted(set([5, 6, 7, 9, 12, 15, 17, 20, 31, 32, 33, 34, 35, 36, 40, 55, 60, 64, 66, 67, n, n + 1, max(n - 1, 5)])):
+        if 5 <= k <= 67 and k not in (8, 16):
+            thr = ((1 << (8 * k)) - 1) >> ((69 - k) * 8)
+            for x in (thr - 1, thr, thr + 1, 1 << (8 * (k - 1)), (1 << (8 * (k - 1))) - 1):
+                if 0 <= x < 1 << (8 * k):
+                    out.append(('scalec', bytes([3 + ((k - 4) << 2)]) + le(x, k)))
+    # SCALE fixed: Compact<u32> length prefix thresholds with a matching payload
+    for ln in (62, 63, 64, 65):
+        out.append(('scale', le((ln << 2) | 1, 2) + b'\x01' * ln))
+        out.append(('scale', le((ln << 2) | 2, 4) + b'\x01' * ln))
+        out.append(('scale', bytes([ln << 2]) + b'\x01' * ln if ln < 64 else None))
+    # RLP: 55/56-byte payloads in both header forms, long-form length 55/56
+    for ln in (54, 55, 56, 57):
+        p = b'\x01' * ln
+        for d in RLP_DECS:
+            out.append((d, rlp_str(p)))
+            out.append((d, bytes([0xb8, ln]) + p))
+            out.append((d, bytes([0xb9, 0, ln]) + p))
+            if ln < 56:
+                out.append((d, bytes([0x80 + ln]) + p))
+    # DER: length 0x7f/0x80 in short and long form
+    for ln in (0x7e, 0x7f, 0x80, 0x81):
+        c = b'\x01' * ln
+        out.append(('der', b'\x02' + (bytes([ln]) if ln < 0x80 else b'') + c))
+        out.append(('der', b'\x02\x81' + bytes([ln]) + c))
+        out.append(('der', b'\x02\x82\x00' + bytes([ln]) + c))
+    return ['d_%s %d %s' % (d, bits, hb(b)) for d, b in out if b is not None]
+
+
 def gen(rng, tier):
     thorough = tier != 'quick'
     decs = BIN_DECS + TXT_DECS + PG_DECS
@@ -109,6 +181,8 @@ def gen(rng, tier):
     # every 3-byte string for the header-parsing decoders
     hdr = ['arlp', 'frlp3', 'frlp4', 'rlp', 'rlpbits', 'scale', 'scalec', 'der', 'ssz', 'borsh', 'pg_INT2', 'pg_JSON', 'pg_JSONB',
            'pg_TEXT', 'json', 'str']
+    if not thorough:
+        hdr = ['arlp', 'frlp3', 'frlp4', 'rlp', 'scale', 'scalec', 'der', 'json']
     for bits in ((12,) if not thorough else (7, 12, 16)):
         for d in hdr:
             for b0 in range(256):
@@ -141,6 +215,10 @@ def gen(rng, tier):
             picks = [bytes(rng.getrandbits(8) for _ in range(rng.randrange(0, nbytes(bits) + 17)))]
         for p in picks:
             light.append('d_%s %d %s' % (d, bits, hb(p)))
+    # branch-targeted: every acceptance threshold of the decoders, both sides, in the arm that tests it
+    for bits in WIDTHS:
+        for c in threshold_cases(bits):
+            light.append(c)
     # bigint
     for bits in WIDTHS:
         m = 1 << bits
